@@ -47,6 +47,18 @@ class Exec:
         if 'died' in r: rc = self.p.wait(); raise Died(r, rc, self.stderr_tail(), req.get('fn'))
         if self.keep_log: self.log.append((req, r))
         return r
+    def send(self, req):
+        """write a request without waiting for the reply (pair with recv); lets several executors work concurrently"""
+        self.n += 1; req = dict(req); req.setdefault('id', self.n); self.calls += 1; self._pending_fn = req.get('fn')
+        try: self.p.stdin.write((json.dumps(req) + '\n').encode())
+        except (BrokenPipeError, OSError): rc = self.p.wait(); raise Died(None, rc, self.stderr_tail(), req.get('fn'))
+    def recv(self, timeout=None):
+        line = self._readline(timeout or self.timeout)
+        if not line: rc = self.p.wait(); raise Died(None, rc, self.stderr_tail(), getattr(self, '_pending_fn', None))
+        r = json.loads(line)
+        if 'died' in r: rc = self.p.wait(); raise Died(r, rc, self.stderr_tail(), getattr(self, '_pending_fn', None))
+        if 'rv' in r: r['rvname'] = self.ck.rv(r.get('rv', -1))
+        return r
     def _readline(self, timeout):
         # wall-clock watchdog: a firing is a hang of the executor (inconclusive unless reproduced)
         fd = self.p.stdout.fileno()
